@@ -30,6 +30,7 @@ struct Plan {
 	int target = 1;          // 0: no -t, 1 x86_64-sysv, 2 aarch64, 3 riscv64
 	bool pponly = false;
 	bool via_stdin = false;  // single input only
+	bool stdin_pipe = false; // stdin is a pipe (not seekable) rather than a redirected file
 	bool dash_o = false;
 	int stack_shift = 0;
 	// allocator schedule
